@@ -164,6 +164,10 @@ def rules(ctx, tab, tag=""):
                 ctx.ob("R3" + tag, lab + "/playing-same-frame", "Playing" in stored,
                        "an animator that is Waiting with position >= delay starts Playing in the same frame (not one frame "
                        "later); stores: %s" % stored, site, trace_of(p), what="playing-delayed")
+            if r.final == "Waiting":
+                ctx.ob("R3" + tag, lab + "/waiting-only-before-delay", r.ge_delay == 0,
+                       "a frame may leave the animator Waiting only if it has established position < delay (pos>=delay "
+                       "decided: %s)" % r.ge_delay, site, trace_of(p), what="waiting-past-delay")
             if r.ge_duration == 1 and r.s0 != "Ended":
                 ctx.ob("R3" + tag, lab + "/ended-same-frame", r.final == "Ended",
                        "position >= total duration => Ended in this frame; final state %s" % r.final, site, trace_of(p),
